@@ -148,3 +148,90 @@ def short_value(v):
 
 def short_env(env):
     return {k: short_value(v) for k, v in env.items()}
+
+
+# --------------------------------------------------------------------------- interpreter-wide state (must be left alone)
+def global_state():
+    """a snapshot of interpreter-wide settings that a library call has no business changing"""
+    import decimal
+    import gc
+    import locale
+    import logging
+    import os
+    import sys
+    import threading
+    import warnings
+
+    ctx = decimal.getcontext()
+    try:
+        loc = locale.setlocale(locale.LC_ALL)
+    except locale.Error:
+        loc = "?"
+    return {
+        "sys.get_int_max_str_digits()": sys.get_int_max_str_digits(),
+        "sys.getrecursionlimit()": sys.getrecursionlimit(),
+        "sys.getswitchinterval()": sys.getswitchinterval(),
+        "decimal context": (ctx.prec, ctx.rounding, ctx.Emax, ctx.Emin),
+        "locale": loc,
+        "number of warning filters": len(warnings.filters),
+        "os.getcwd()": os.getcwd(),
+        "os.environ": hash(tuple(sorted(os.environ.items()))),
+        "sys.path": tuple(sys.path),
+        "gc.isenabled()": gc.isenabled(),
+        "root logger (level, handlers, disable)": (logging.getLogger().level, len(logging.getLogger().handlers), logging.root.manager.disable),
+        "non-daemon threads": sum(1 for t in threading.enumerate() if not t.daemon),
+        "sys.stdout / sys.stderr objects": (id(sys.stdout), id(sys.stderr)),
+    }
+
+
+def state_diff(before, after):
+    return ["%s changed from %r to %r" % (k, before[k], after[k]) for k in before if before[k] != after[k]]
+
+
+class ambient:
+    """run a block under non-default (but legal) interpreter-wide settings and restore them afterwards"""
+
+    def __init__(self, int_digits=None, recursion=None, prec=None):
+        self.int_digits, self.recursion, self.prec = int_digits, recursion, prec
+
+    def __enter__(self):
+        import decimal
+        import sys
+
+        self.old = (sys.get_int_max_str_digits(), sys.getrecursionlimit(), decimal.getcontext().prec)
+        if self.int_digits is not None:
+            sys.set_int_max_str_digits(self.int_digits)
+        if self.recursion is not None:
+            sys.setrecursionlimit(self.recursion)
+        if self.prec is not None:
+            decimal.getcontext().prec = self.prec
+        return self
+
+    def __exit__(self, *a):
+        import decimal
+        import sys
+
+        sys.set_int_max_str_digits(self.old[0])
+        sys.setrecursionlimit(self.old[1])
+        decimal.getcontext().prec = self.old[2]
+        return False
+
+
+def restore_state(snapshot):
+    """after a violation: put back what can be put back, so that the shrinker and later cases start from a clean process"""
+    import sys
+
+    sys.set_int_max_str_digits(snapshot["sys.get_int_max_str_digits()"])
+    sys.setrecursionlimit(snapshot["sys.getrecursionlimit()"])
+    sys.setswitchinterval(snapshot["sys.getswitchinterval()"])
+
+
+def refused_deploy(ev, text):
+    """hand a live evaluator a broken version of `text` (a typo: the text is refused) - what a deploy pipeline does now and then;
+    whatever happens must not keep the next recompile from taking effect"""
+    broken = text.rstrip()
+    broken = broken[:-1] if broken.endswith("}") else broken + " ;"
+    try:
+        ev.recompile(broken)
+    except Exception:
+        pass
